@@ -112,13 +112,18 @@ let fbits x = if x <> x then "nan" else Int64.to_string (Int64.bits_of_float x)
 let lookup (g : string) (r : float req) : tape_entry * string =
   let (k, params) = req_key r in
   let key = Digest.to_hex (Digest.string (g ^ "|" ^ k)) in
-  match Hashtbl.find_opt tape key with
-  | None -> raise (Model_error (Printf.sprintf "rng-request-not-recorded %s after %s" k g))
-  | Some e ->
-      if List.length e.params <> List.length params || not (List.for_all2 close e.params params) then
-        raise (Model_error (Printf.sprintf "rng-param-mismatch %s model=[%s] impl=[%s]" k
-                 (String.concat "," (List.map fbits params)) (String.concat "," (List.map fbits e.params))));
-      (e, key)
+  match Hashtbl.find_all tape key with
+  | [] -> raise (Model_error (Printf.sprintf "rng-request-not-recorded %s after %s" k g))
+  | alts ->
+      (* generators in equal states (deep copies) may have answered the same request kind with
+         different parameters: pick the recorded alternative whose parameters match *)
+      let ok e = List.length e.params = List.length params && List.for_all2 close e.params params in
+      (match List.find_opt ok alts with
+       | Some e -> (e, key)
+       | None ->
+           let e = List.hd alts in
+           raise (Model_error (Printf.sprintf "rng-param-mismatch %s model=[%s] impl=[%s]" k
+                    (String.concat "," (List.map fbits params)) (String.concat "," (List.map fbits e.params)))))
 
 let tape_rng : (float, string) rngOps = {
   draw_r = (fun g r -> let (e, k) = lookup g r in (e.ransw, k));
@@ -148,10 +153,31 @@ let read_ctx () : float list list option =
              Some (List.init rows (fun _ -> List.init cols (fun _ -> next_float ())))
   | s -> failwith ("ctx " ^ s)
 
+let read_oracle () : (float, int) oracle =
+  expect "ORC";
+  let knn = next_list (fun () -> List.map nat_of_int (next_ints ())) in
+  let labels = List.map nat_of_int (next_ints ()) in
+  let assign = List.map nat_of_int (next_ints ()) in
+  let nleaf = next_int () in
+  let tbl = Hashtbl.create 64 in
+  for _ = 1 to nleaf do
+    let a = next_int () in
+    let row = next_floats () in
+    let lf = next_int () in
+    Hashtbl.replace tbl (a, List.map Int64.bits_of_float row) lf
+  done;
+  let sizes = List.map nat_of_int (next_ints ()) in
+  { o_knn = knn; o_labels = labels; o_assign = assign;
+    o_leaf = (fun a row ->
+        match Hashtbl.find_opt tbl (a, List.map Int64.bits_of_float row) with
+        | Some l -> nat_of_int l
+        | None -> raise (Model_error (Printf.sprintf "leaf-oracle-missing arm %d" a)));
+    o_sizes = sizes }
+
 let read_op () : (float, int) op =
   match next () with
-  | "fit" -> let ds = next_ints () in let rs = next_floats () in let cx = read_ctx () in Fit (ds, rs, cx)
-  | "pfit" -> let ds = next_ints () in let rs = next_floats () in let cx = read_ctx () in PartialFit (ds, rs, cx)
+  | "fit" -> let ds = next_ints () in let rs = next_floats () in let cx = read_ctx () in let o = read_oracle () in Fit (ds, rs, cx, o)
+  | "pfit" -> let ds = next_ints () in let rs = next_floats () in let cx = read_ctx () in let o = read_oracle () in PartialFit (ds, rs, cx, o)
   | "add" -> let a = next_int () in let bz = read_binz () in AddArm (a, bz)
   | "rem" -> let a = next_int () in RemoveArm a
   | "warm" ->
@@ -161,19 +187,36 @@ let read_op () : (float, int) op =
       let q = next_float () in
       let idx a = let rec go i = function [] -> 0 | x :: t -> if x = a then i else go (i + 1) t in go 0 keys in
       WarmStart (keys, (fun u v -> m.(idx u).(idx v)), q)
-  | "pred" -> Predict (read_ctx ())
-  | "pexp" -> PredictExp (read_ctx ())
+  | "pred" -> let cx = read_ctx () in let o = read_oracle () in Predict (cx, o)
+  | "pexp" -> let cx = read_ctx () in let o = read_oracle () in PredictExp (cx, o)
   | s -> failwith ("op " ^ s)
 
-let read_lp (arms : int list) : (float, int) cf =
+let next_bool () = match next () with "1" -> true | "0" -> false | s -> failwith ("bool " ^ s)
+
+let read_lp (arms : int list) : (float, int, string) lp =
   match next () with
-  | "greedy" -> let e = next_float () in cf_init fnum KGreedy e None arms
-  | "ucb" -> let a = next_float () in cf_init fnum KUcb a None arms
-  | "softmax" -> let t = next_float () in cf_init fnum KSoftmax t None arms
-  | "popularity" -> cf_init fnum KPopularity 0.0 None arms
-  | "thompson" -> let bz = read_binz () in cf_init fnum KThompson 0.0 bz arms
-  | "random" -> cf_init fnum KRandom 0.0 None arms
+  | "greedy" -> let e = next_float () in LCf (cf_init fnum KGreedy e None arms)
+  | "ucb" -> let a = next_float () in LCf (cf_init fnum KUcb a None arms)
+  | "softmax" -> let t = next_float () in LCf (cf_init fnum KSoftmax t None arms)
+  | "popularity" -> LCf (cf_init fnum KPopularity 0.0 None arms)
+  | "thompson" -> let bz = read_binz () in LCf (cf_init fnum KThompson 0.0 bz arms)
+  | "random" -> LCf (cf_init fnum KRandom 0.0 None arms)
+  | "lingreedy" -> let e = next_float () in let l2 = next_float () in let sc = next_bool () in let kf = next_bool () in
+      LLin (lin_init fnum RRidge 0.0 e l2 sc kf arms)
+  | "lints" -> let a = next_float () in let l2 = next_float () in let sc = next_bool () in let kf = next_bool () in
+      LLin (lin_init fnum RTs a 0.0 l2 sc kf arms)
+  | "linucb" -> let a = next_float () in let l2 = next_float () in let sc = next_bool () in let kf = next_bool () in
+      LLin (lin_init fnum RUcb a 0.0 l2 sc kf arms)
   | s -> failwith ("lp " ^ s)
+
+let read_metric () = match next () with
+  | "cityblock" -> Cityblock | "chebyshev" -> Chebyshev | "sqeuclidean" -> SqEuclidean | "euclidean" -> Euclidean
+  | s -> failwith ("metric " ^ s)
+
+let read_optlist () = match next () with
+  | "nop" -> None
+  | "p" -> Some (next_floats ())
+  | s -> failwith ("optlist " ^ s)
 
 (* ---------- printers ---------- *)
 let parm = function None -> "none" | Some a -> string_of_int a
@@ -209,7 +252,23 @@ let print_state cid i (m : (float, int, string) mab) =
              Printf.sprintf "%d:%b:%b:%s" a st.st_trained st.st_warm (parm st.st_by)) s.l_status));
        Printf.printf "S %s %d beta %s\n" cid i
          (String.concat " " (List.map (fun (a, m) ->
-             Printf.sprintf "%d:%s" a (String.concat "," (List.map fbits m.r_beta))) s.l_models)))
+             Printf.sprintf "%d:%s" a (String.concat "," (List.map fbits m.r_beta))) s.l_models))
+   | INbr s ->
+       Printf.printf "S %s %d nhist %d %d %d\n" cid i (List.length s.n_ds) (List.length s.n_rs) (List.length s.n_cx);
+       Printf.printf "S %s %d lsh %s\n" cid i
+         (String.concat " " (List.mapi (fun k tbl ->
+             Printf.sprintf "%d:%s" k (String.concat ";" (List.filter_map (fun (h, l) ->
+                 if l = [] then None else
+                 Some (Printf.sprintf "%d=%s" (int_of_z h) (ilist (List.map int_of_nat l))))
+               (List.sort (fun (h1, _) (h2, _) -> compare (int_of_z h1) (int_of_z h2)) tbl)))) s.n_tables))
+   | IClu s ->
+       Printf.printf "S %s %d nhist %d %d %d\n" cid i (List.length s.k_ds) (List.length s.k_rs) (List.length s.k_cx)
+   | ITree s ->
+       Printf.printf "S %s %d leaves %s\n" cid i
+         (String.concat " " (List.map (fun (a, tbl) ->
+             Printf.sprintf "%d:%s" a (String.concat ";" (List.map (fun (lf, rs) ->
+                 Printf.sprintf "%d=%s" (int_of_nat lf) (String.concat "," (List.map fbits rs)))
+               (List.sort (fun (l1, _) (l2, _) -> compare (int_of_nat l1) (int_of_nat l2)) (List.filter (fun (_, rs) -> rs <> []) tbl))))) s.t_leaves)))
 
 (* ---------- main loop ---------- *)
 let run_case () =
@@ -222,7 +281,16 @@ let run_case () =
   expect "NP";
   let imp : (float, int, string) imp =
     match next () with
-    | "none" -> ICf lp
+    | "none" -> (match lp with LCf s -> ICf s | LLin s -> ILin s)
+    | "radius" -> let r = next_float () in let m = read_metric () in let p = read_optlist () in let kf = next_bool () in
+        INbr (nbr_init (NRadius r) m p kf arms lp)
+    | "knearest" -> let k = next_int () in let m = read_metric () in
+        INbr (nbr_init (NKNearest (nat_of_int k)) m None false arms lp)
+    | "lsh" -> let nd = next_int () in let nt = next_int () in let p = read_optlist () in let kf = next_bool () in
+        INbr (nbr_init (NLsh (nat_of_int nd, nat_of_int nt)) Euclidean p kf arms lp)
+    | "clusters" -> let n = next_int () in IClu (clu_init (nat_of_int n) arms lp)
+    | "tree" -> let kf1 = next_bool () in let kf2 = next_bool () in
+        (match lp with LCf s -> ITree (tree_init fnum kf1 kf2 arms s) | LLin _ -> failwith "tree with linear lp")
     | s -> failwith ("np " ^ s) in
   expect "OPS";
   let ops = next_list read_op in
@@ -234,8 +302,8 @@ let run_case () =
     let params = next_floats () in
     let kind = next () in
     (match kind with
-     | "r" -> let a = next_floats () in Hashtbl.replace tape key { params; ransw = a; zansw = [] }
-     | "z" -> let a = next_ints () in Hashtbl.replace tape key { params; ransw = []; zansw = a }
+     | "r" -> let a = next_floats () in Hashtbl.add tape key { params; ransw = a; zansw = [] }
+     | "z" -> let a = next_ints () in Hashtbl.add tape key { params; ransw = []; zansw = a }
      | s -> failwith ("tape kind " ^ s))
   done;
   expect "END";
